@@ -88,13 +88,25 @@ Definition xmi_emit (found : list fsitem) (sofas : list sofaitem) (views : list 
   mkXd fs (first_seen [] (map (fun i => pkg_of (fi_type i)) fs)) sofas (map sort_members views).
 
 (* JSON: types by name (a set in arbitrary order comes in), sofa structures first (per view: the byte array holding the
-   sofa data if there is one, then the sofa; json.py `for view in cas.views`) then structures by id, views *)
+   sofa data if there is one and no earlier sofa had it, then the sofa; json.py `for view in cas.views` with the set
+   `written_sofa_arrays`) then the structures by id except those arrays (`if id(fs) in written_sofa_arrays: continue`), views *)
 Definition json_types_emit (types : list tyitem) : list tyitem :=
   filter (fun t => negb (String.eqb (ty_name t) DOCANN)) (sort_s ty_name types).
-Definition sofa_fs (s : sofaitem) : list fsitem :=
-  (match so_arr s with Some a => [mkFi a 0%N BYTEARRAY] | None => [] end) ++ [mkFi (so_id s) 0%N SOFA].
+Definition zmemb (x : Z) (l : list Z) : bool := existsb (Z.eqb x) l.
+Fixpoint sofas_fs (written : list Z) (sofas : list sofaitem) : list fsitem :=
+  match sofas with
+  | [] => []
+  | s :: r =>
+      match so_arr s with
+      | Some a => if zmemb a written then mkFi (so_id s) 0%N SOFA :: sofas_fs written r
+                  else mkFi a 0%N BYTEARRAY :: mkFi (so_id s) 0%N SOFA :: sofas_fs (a :: written) r
+      | None => mkFi (so_id s) 0%N SOFA :: sofas_fs written r
+      end
+  end.
+Definition sofa_arrays (sofas : list sofaitem) : list Z :=
+  flat_map (fun s => match so_arr s with Some a => [a] | None => [] end) sofas.
 Definition json_fs_emit (found : list fsitem) (sofas : list sofaitem) : list fsitem :=
-  flat_map sofa_fs sofas ++ sort_z fi_id found.
+  sofas_fs [] sofas ++ sort_z fi_id (filter (fun i => negb (zmemb (fi_id i) (sofa_arrays sofas))) found).
 Record jsondoc := mkJd { jd_types : option (list tyitem); jd_fs : list fsitem; jd_views : list (string * viewitem) }.
 Definition json_emit (types : option (list tyitem)) (found : list fsitem) (sofas : list sofaitem)
                      (views : list (string * viewitem)) : jsondoc :=
@@ -146,15 +158,20 @@ Definition save (trav : list N) (s : state) : state * list (N * Z) :=
    XMI (xmi.py CasXmiSerializer.serialize): after `list(cas._find_all_fs())`, for every sofa
        `if sofa.sofaArray is not None and not any(fs is sofa.sofaArray for fs in feature_structures):` the array gets an
        id if it has none and is appended — every time, whether or not it already has an id; the whole list is then sorted.
-   JSON (json.py CasJsonSerializer.serialize): in the loop over the views, BEFORE the traversal, the array gets an id if
-       it has none and is written in front of its sofa — not sorted, and written once more among the sorted structures
-       when the traversal reaches it as well.
+   JSON (json.py CasJsonSerializer.serialize): in the loop over the views, BEFORE the traversal, an array no earlier sofa
+       had (`id(...) not in written_sofa_arrays`) gets an id if it has none and is written in front of its sofa — not
+       sorted; the traversal's structures follow sorted by id, those arrays left out (`if id(fs) in written_sofa_arrays:
+       continue`): every array is written exactly once, in front of the first sofa that refers to it.
    typecheck does not look at them. *)
 Definition add_array (acc : list N) (a : N) : list N := if existsb (N.eqb a) acc then acc else acc ++ [a].
 Definition xmi_trav (ta tx : list N) : list N := fold_left add_array ta tx.
-Definition doc_of_pre (pre trav : list N) (s : state) : list (N * Z) := listed pre s ++ doc_of trav s.
+Definition uniq (ta : list N) : list N := xmi_trav ta [].            (* each array once, in first-occurrence order *)
+Definition without (ta trav : list N) : list N := filter (fun l => negb (existsb (N.eqb l) ta)) trav.
+Definition doc_of_pre (pre trav : list N) (s : state) : list (N * Z) := listed (uniq pre) s ++ doc_of (without pre trav) s.
 Definition save_pre (pre trav : list N) (s : state) : state * list (N * Z) :=
-  let s' := traverse (pre ++ trav) s in (s', doc_of_pre pre trav s').
+  let s' := traverse (uniq pre ++ trav) s in (s', doc_of_pre pre trav s').
+(* how often a structure is listed in a document *)
+Definition count_lab (a : N) (d : list (N * Z)) : nat := List.length (filter (fun p => N.eqb (fst p) a) d).
 
 (* ids present in the store, in store order *)
 Definition present (es : list entry) : list Z :=
